@@ -9,7 +9,7 @@ from vp import core, gen, sig as S, ref_sigproc
 
 PROP_ID = 'C06'
 LEVEL = 'exploration'
-BUDGET = {'quick': 5000, 'thorough': 80000}
+BUDGET = {'quick': 4000, 'thorough': 80000}
 RULE = ('Histories: Hypothesis draws a frame with prior content (zeros / seeded noise through add_noise / '
         'float32 data loaded from a .fil written by an independent SIGPROC writer / a frame that was already injected as a member of a cadence), occasionally more than 2**16 channels wide, 1..4 signal descriptions as '
         'in C01 each with its own bounding-range kind (none, inside, clipped low/high, wholly below/above, '
@@ -22,7 +22,7 @@ RULE = ('Histories: Hypothesis draws a frame with prior content (zeros / seeded 
 ASSUMPTIONS = ['boundary columns of a range (within half a channel of either end) may be included or not',
                'bounded vs unbounded agree to 1e-10 relative (different sub-grid origin under integrate_f_profile)',
                'randomised path/profile families carry their own seeds and are rebuilt per injection']
-REQUIRED_CLASSES = ['noise_stats_first_read_after_injection', 'prior=zeros', 'prior=noise', 'prior=file32', 'prior=via_cadence', 'wide_frame', 'range=inside', 'range=clip_low', 'range=clip_high',
+REQUIRED_CLASSES = ['helper_injection', 'noise_stats_first_read_after_injection', 'prior=zeros', 'prior=noise', 'prior=file32', 'prior=via_cadence', 'wide_frame', 'range=inside', 'range=clip_low', 'range=clip_high',
                     'range=below', 'range=above', 'range=reversed', 'n>=2', 'asc', 'desc']
 
 
@@ -48,7 +48,11 @@ def strategy_(draw, tier):
     return dict(g=g, wide=wide, prior=draw(st.sampled_from(['zeros', 'noise', 'noise', 'file32', 'via_cadence'])),
                 prior_seed=draw(st.integers(0, 10 ** 6)), inj=injections, perm=list(perm),
                 # the noise estimates are looked at for the first time only after the injections
-                late_stats=draw(st.sampled_from([False, False, False, True])))
+                late_stats=draw(st.sampled_from([False, False, False, True])),
+                helper=draw(st.one_of(st.none(), st.fixed_dictionaries({
+                    'u': gen.finite(-0.1, 1.1), 'drift': st.one_of(st.just(0.0), gen.finite(-2, 2)), 'level': gen.finite(0.1, 10),
+                    'w': gen.finite(0.2, 5), 'type': st.sampled_from(['sinc2', 'box', 'gaussian', 'lorentzian', 'voigt']),
+                    'smear': st.booleans()}))))
 
 
 def strategy(tier):
@@ -238,5 +242,23 @@ def run_case(case, ctx):
             if okall and np.any(np.abs(fr2.data.astype(np.float64) - fr.data.astype(np.float64)) > (n + 1) * ulp * mag + 1e-300):
                 obs.fail('order_dependence', f'{float(np.max(np.abs(fr2.data.astype(np.float64) - fr.data)))}')
             obs.cls('permuted')
+    # the constant-signal helper is an injection too: same additivity, same untouched state
+    hp = case.get('helper')
+    if hp is not None and not obs.violations:
+        obs.cls('helper_injection')
+        before = fr.data.copy()
+        f0 = ax.f_of(hp['u'])
+        ok, ret = core.call(obs, 'add_constant_signal', lambda: fr.add_constant_signal(
+            f_start=f0, drift_rate=hp['drift'] * ax.df / ax.dt, level=hp['level'], width=hp['w'] * ax.df,
+            f_profile_type=hp['type'], doppler_smearing=hp['smear']))
+        if ok:
+            ret = np.asarray(ret)
+            if ret.shape != before.shape:
+                obs.fail('return_shape:helper', f'{ret.shape}')
+            else:
+                want = (before.astype(np.float64) + ret.astype(np.float64)).astype(before.dtype)
+                if not np.array_equal(fr.data, want):
+                    obs.fail('additive:helper', f'{int(np.sum(fr.data != want))} pixels differ')
+                compare_state(obs, fr, s0, 'helper')
     obs.nontrivial = any_signal and (any_range or case['prior'] != 'zeros' or n >= 2)
     return obs
